@@ -19,7 +19,7 @@ THEOREMS = [
     "Ebv.C17.sm_exact", "Ebv.C17.pdo_exact", "Ebv.C17.pdo_rejects", "Ebv.C17.aligned_iff",
     "Ebv.C17.pdo_eeprom_source_exact", "Ebv.C17.pdo_sdo_source_exact",
     "Ebv.C17.parse_pdos_eeprom_exact", "Ebv.C17.parse_pdos_sdo_exact",
-    "Ebv.C17.dictGet_dictOfFrom",
+    "Ebv.C17.apply_eeprom_exact", "Ebv.C17.dictGet_dictOfFrom",
 ]
 TRUSTED = ["hand-written model Ebv.Eeprom of _eeprom_read_one/read_eeprom/parse_sync_managers/parse_pdos/"
            "EBPFTerminal.apply_eeprom, tied by exact output + bus-trace correspondence",
@@ -665,6 +665,11 @@ def gen_apply(rng):
     keys = set()
     po, pi = gen_pdo_list(rng, keys, good), gen_pdo_list(rng, keys, good)
     table = gen_sm_table(rng)
+    if rng.random() < 0.5:                  # mostly all four kinds (mailbox terminal) or the two process-data kinds
+        table = [r for r in table if r[2] & 0xf not in (0, 4)]
+        table += [[0x1100, 0, 0x24, 0, 1, 0], [0x1180, 0, 0x20, 0, 1, 0]]
+        if rng.random() < 0.3:
+            rng.shuffle(table)
     for rec in table:                       # mostly usable process-data areas
         if rec[0] == 0 and rng.random() < 0.8:
             rec[0] = 0x1000 + 0x80 * rng.randrange(1, 8)
@@ -751,12 +756,12 @@ def run(ctx):
     logging.disable(logging.CRITICAL)
     rng = ctx.rng
     cases = fixed_cases()
-    cases += [gen_read_one(rng) for _ in range(ctx.n(3000, 30000))]
-    cases += [gen_eeprom(rng) for _ in range(ctx.n(1500, 8000))]
+    cases += [gen_read_one(rng) for _ in range(ctx.n(2500, 30000))]
+    cases += [gen_eeprom(rng) for _ in range(ctx.n(1000, 8000))]
     cases += [gen_eeprom(rng, heavy=True) for _ in range(ctx.n(0, 2))]
-    cases += [gen_sm(rng) for _ in range(ctx.n(3000, 30000))]
-    cases += [gen_pdos(rng) for _ in range(ctx.n(4000, 40000))]
-    cases += [gen_apply(rng) for _ in range(ctx.n(1000, 10000))]
+    cases += [gen_sm(rng) for _ in range(ctx.n(2500, 30000))]
+    cases += [gen_pdos(rng) for _ in range(ctx.n(3000, 40000))]
+    cases += [gen_apply(rng) for _ in range(ctx.n(800, 10000))]
     impl = []
     for c in cases:
         r = run_case(c)
